@@ -450,6 +450,10 @@ def composite(pid):
     def run(ctx):
         for part in PARTS[pid]:
             part(ctx)
+        # the validity predicate is part of every property whose code reaches isValidCell
+        if pid in PROP_ENTRIES and "isValidCell" in reach(pid)[0] and not any(o["rule"] == "R-BITPROV" and isinstance(o["instance"], dict) and o["instance"].get("function") == "isValidCell" for o in ctx.obligations):
+            part_bitprov("validity")(ctx)
+            part_tables(["T7"], {"T7": ["isBaseCellPentagonArr"]})(ctx)
     return run
 
 
